@@ -65,6 +65,16 @@ def gen_wait_raise(rnd, sid):
                 exc_handler=True, run_empty=True, deliver_at=[], _strict=True)
 
 
+def gen_wait_nohandler(rnd, sid):
+    """a handler waits for a signal class nobody listens to (used only to be waited for); the signal was enqueued before the wait began, or is enqueued by another
+    handler meanwhile: both loops dispatch it (to no handler), the wait is over, the program goes on"""
+    before = rnd.random() < 0.6
+    acts = ([["enq", "U9", 0, None, sid.next()]] if before else [["enq", "U1", 0, None, sid.next()]]) + [["proc", "U9"], ["enq", "U2", 0, None, sid.next()]]
+    hs = [dict(cls="U0", hid=0, data=None, scripts=[acts]), dict(cls="U1", hid=1, data=None, scripts=[[["enq", "U9", 0, None, sid.next()]], []]), dict(cls="U2", hid=2, data=None, scripts=[[], []])]
+    return dict(op="machine", mode="loop", width=80, screens=[], handlers=hs, init=[["enq", "U0", 0, None, sid.next()]], stdin=[], quit_cb=None, quit_screen=None,
+                exc_handler=True, run_empty=True, deliver_at=[], _strict=True)
+
+
 def flat_model_case(case):
     def sig(a): return [int(a[1][1:]), a[2], a[4]]
     return {"op": "gflat", "steps": 600, "init": [sig(a) for a in case["init"]],
@@ -78,7 +88,7 @@ def generate(rnd, tier):
     cases = [with_cc(gen_flat(rnd, sid)) for _ in range(n)] + [with_cc(gen_c01(rnd, sid)) for _ in range(n // 2)]
     from harness.props.C02 import gen_late
     cases += [with_cc(gen_late(rnd, sid)) for _ in range(n // 10)]
-    cases += [with_cc(gen_late_same(rnd, sid)) for _ in range(n // 20)] + [with_cc(gen_wait_raise(rnd, sid)) for _ in range(n // 10)]
+    cases += [with_cc(gen_late_same(rnd, sid)) for _ in range(n // 20)] + [with_cc(gen_wait_raise(rnd, sid)) for _ in range(n // 10)] + [with_cc(gen_wait_nohandler(rnd, sid)) for _ in range(n // 10)]
     # waits nested in handlers, non-waiting calls inside waiting ones, force-quitting handlers with successors: the families of C10 / C09 (both real loops and both machines)
     from harness.props.C10 import gen_c10, gen_c10_modal
     from harness.props.C09 import gen_fq_handlers
